@@ -438,6 +438,9 @@ func (d *BFD) SerializeTo(b gopacket.SerializeBuffer, opts gopacket.SerializeOpt
 	binary.BigEndian.PutUint32(data[20:], uint32(d.RequiredMinEchoRxInterval))
 
 	if d.AuthPresent && (d.AuthHeader != nil) {
+		if d.AuthHeader.Length() < 3 {
+			return errors.New("BFD authentication header of unknown type cannot be serialized")
+		}
 		auth, err := b.AppendBytes(int(d.AuthHeader.Length()))
 		if err != nil {
 			return err
